@@ -13,9 +13,14 @@ import (
 // Reset puts frugal into the state of a fresh process (caches, pools, scratch).
 func Reset() { freflect.VerifReset() }
 
+// ResetLight resets pools and type caches but keeps the descriptor map: a fresh
+// process for every type that has never been used.
+func ResetLight() { freflect.VerifResetLight() }
+
 // chooser adapts the E1 explorer to the scheduler's Chooser interface.
 type chooser struct{ c *explore.C }
 
+//go:norace
 func (a chooser) Sched(n int, preempt bool, label string) int {
 	if preempt {
 		return a.c.Choose(n, explore.Dev, "sched:"+label)
@@ -23,6 +28,7 @@ func (a chooser) Sched(n int, preempt bool, label string) int {
 	return a.c.Choose(n, explore.Data, "sched:"+label)
 }
 
+//go:norace
 func (a chooser) Env(n int, label string) int { return a.c.Choose(n, explore.Dev, "env:"+label) }
 
 // WithEnv routes environment choices (which pooled object a Pool.Get returns)
@@ -34,14 +40,14 @@ func WithEnv(c *explore.C, f func()) {
 }
 
 // RunThreads runs bodies as cooperative threads, every interleaving decision
-// being asked from the explorer.
-func RunThreads(c *explore.C, horizon int, trace bool, onPoint func(label string), bodies ...func()) *sched.Run {
-	var op func(r *sched.Run, label string)
-	if onPoint != nil {
-		op = func(r *sched.Run, label string) { onPoint(label) }
-	}
-	return sched.Go(chooser{c}, horizon, trace, op, bodies...)
+// being asked from the explorer.  onPoint (may be nil, must be //go:norace) is
+// evaluated at every scheduling point.
+func RunThreads(c *explore.C, horizon int, onPoint func(label string), bodies ...func()) *sched.Run {
+	return sched.Go(chooser{c}, horizon, onPoint, bodies...)
 }
+
+// RaceBuild reports whether this binary carries the race detector.
+const RaceBuild = sched.RaceBuild
 
 // IsAbort reports whether a recovered panic belongs to the scheduler.
 func IsAbort(p interface{}) bool { return sched.IsAbort(p) }
